@@ -658,14 +658,15 @@ func newRaceReports() string {
 // calls); "harness" when the first non-runtime frame of either access is harness code.
 func classifyRace(report string) string {
 	lines := strings.Split(report, "\n")
-	verdict := ""
+	accesses, harness := 0, 0
 	for i := 0; i < len(lines); i++ {
 		l := strings.TrimSpace(lines[i])
 		isAccess := (strings.HasPrefix(l, "Write at ") || strings.HasPrefix(l, "Read at ") || strings.HasPrefix(l, "Previous write at ") || strings.HasPrefix(l, "Previous read at ") ||
-			strings.HasPrefix(l, "Atomic write at ") || strings.HasPrefix(l, "Previous atomic ")) && strings.Contains(l, "by ")
+			strings.HasPrefix(l, "Atomic write at ") || strings.HasPrefix(l, "Atomic read at ") || strings.HasPrefix(l, "Previous atomic ")) && strings.Contains(l, "by ")
 		if !isAccess {
 			continue
 		}
+		accesses++
 		for j := i + 1; j < len(lines); j++ {
 			f := strings.TrimSpace(lines[j])
 			if f == "" {
@@ -675,16 +676,18 @@ func classifyRace(report string) string {
 				continue // file:line lines and runtime frames
 			}
 			if strings.HasPrefix(f, "main.") {
-				return "harness"
+				harness++
 			}
-			verdict = "goldmark"
 			break
 		}
 	}
-	if verdict == "" {
+	// Harness trouble only when every racing access is made by harness code itself. An
+	// access by harness code to memory goldmark handed to it (the bytes passed to the
+	// writer) racing with an access made by goldmark is goldmark's race.
+	if accesses == 0 || harness == accesses {
 		return "harness"
 	}
-	return verdict
+	return "goldmark"
 }
 
 // ---- engine entry --------------------------------------------------------------------------
